@@ -13,7 +13,7 @@ from simkit.tape import digest_of
 from simkit import vclock, pipeline as pl
 
 ID = "C09"
-RUNS = {"quick": 120_000, "thorough": 3_000_000}
+RUNS = {"quick": 100_000, "thorough": 3_000_000}
 SIM_TIME_UNIT = "reporter calls"
 RULE = (
     "each run = a scripted reporter issuing a well-formed TestResult history (0..5 tests; every outcome kind given as "
